@@ -68,6 +68,22 @@ class StateMeta(type):
 
         attributes: dict[str, StateAttribute[Any]] = {}
 
+        # a subclass of a specialized generic keeps the type arguments of its bases,
+        # unless it declares a type parameter of the same name on its own
+        own_parameters: set[str] = {
+            parameter.__name__ for parameter in getattr(state_type, "__type_params__", ())
+        }
+        type_parameters = {
+            **{
+                name: argument
+                for base in reversed(bases)
+                for name, argument in getattr(base, "__TYPE_PARAMETERS__", {}).items()
+                if name not in own_parameters
+            },
+            **(type_parameters or {}),
+        }
+        state_type.__TYPE_PARAMETERS__ = type_parameters  # pyright: ignore[reportAttributeAccessIssue]
+
         if bases:  # handle base class
             for key, annotation in attribute_annotations(
                 state_type,
@@ -128,6 +144,7 @@ class State(metaclass=StateMeta):
 
     __IMMUTABLE__: ClassVar[EllipsisType] = ...
     __ATTRIBUTES__: ClassVar[dict[str, StateAttribute[Any]]]
+    __TYPE_PARAMETERS__: ClassVar[dict[str, Any]]
 
     def __class_getitem__(
         cls,
